@@ -11,8 +11,8 @@ package zztier
 
 import (
 	"github.com/hyperjumptech/grule-rule-engine/ast"
-	verif "github.com/hyperjumptech/grule-rule-engine/zzverif"
 	"github.com/hyperjumptech/grule-rule-engine/zzkb"
+	verif "github.com/hyperjumptech/grule-rule-engine/zzverif"
 )
 
 type snapWalk struct {
